@@ -105,6 +105,12 @@ func c05faults(v gen.Variant) []c05fault {
 			defined[s.tok] = true
 		}
 	}
+	hasUnnamedGlobal := false
+	for t := range defined {
+		if len(t) > 1 && t[0] == '@' && t[1] >= '0' && t[1] <= '9' {
+			hasUnnamedGlobal = true
+		}
+	}
 	var out []c05fault
 	for _, s := range sites {
 		if s.def {
@@ -114,6 +120,16 @@ func c05faults(v gen.Variant) []c05fault {
 			continue // %0-style implicit names, intrinsic-free externals: not a tagged reference
 		}
 		out = append(out, c05fault{v: v, kind: "undefined", site: s.kind, token: s.tok, text: text[:s.start] + c05fresh[s.tok[0]] + text[s.end:]})
+		// in modules with unnamed globals also every small NUMBER that names no global (the
+		// numbers of other definition kinds -- !3, #5 -- must not make @3 or @5 resolvable).
+		if s.tok[0] == '@' && hasUnnamedGlobal {
+			for k := 0; k < 9; k++ {
+				nt := fmt.Sprintf("@%d", k)
+				if !defined[nt] {
+					out = append(out, c05fault{v: v, kind: "undefined", site: s.kind + "-number", token: s.tok + "->" + nt, text: text[:s.start] + nt + text[s.end:]})
+				}
+			}
+		}
 	}
 	// scope faults: a local use redirected to a name that exists only in ANOTHER function, and
 	// cross-kind duplicates (a block named like a value, a value named like a block).
@@ -304,9 +320,15 @@ func runC05(c *fw.Check) {
 			return
 		}
 		v := bases[bi]
-		// the base itself must be accepted (else it is not "otherwise valid").
+		// the base itself must be valid (else it is not "otherwise valid"): accepted by the
+		// library, or -- when the library rejects it, which is C01's business -- by LLVM.
 		if _, errs, pan := parseTry(gen.Module([]gen.Variant{v})); errs != "" || pan != "" {
-			return
+			if v.NoLLVM || !fw.HaveLLVM() {
+				return
+			}
+			if ok, _ := fw.LLVMAccepts(gen.Module([]gen.Variant{v})); !ok {
+				return
+			}
 		}
 		fl := c05faults(v)
 		for fi, f := range fl {
